@@ -303,6 +303,13 @@ func (s *Scope) Bound(sym Symbol) bool {
 }
 
 func (s *Scope) bound(name string) bool {
+	if pkg, vname, private := UnpackName(name); pkg != nil {
+		// The same rules as for evaluating pkg:name and pkg::name.
+		vv := pkg.GetVarVal(vname)
+		return vv != nil &&
+			(private || (vv.Export && (vv.Pkg == pkg || vv.Pkg == nil || pkg.Imports[vname] != nil))) &&
+			vv.Value() != Unbound
+	}
 	s.locker.Lock()
 	if s.Vars != nil {
 		if v, has := s.Vars[name]; has {
